@@ -140,6 +140,9 @@ fn histories(ctx: &mut Ctx) {
         ("B then junk", vec![0x88, 0x82, 1, 2]),
         ("Root(unknown)[U] then junk", vec![0x81, 0xff, 0x82, 0x81, 7]),
         ("Root(known size)[U] then junk", vec![0x81, 0x83, 0x82, 0x81, 7]),
+        // the declared size is too small for the content: recovery walks over the declared end of the open master
+        ("Root(known size 2, too small)[U U] then junk", vec![0x81, 0x82, 0x82, 0x81, 7, 0x82, 0x81, 8]),
+        ("Root(known size 1)[M(known size 1)[MU MU]] U then junk", vec![0x81, 0x81, 0x8d, 0x81, 0x8e, 0x81, 1, 0x8e, 0x81, 2, 0x82, 0x81, 3]),
     ];
     let junks: Vec<Vec<u8>> = vec![vec![], vec![0x00], vec![0x00, 0x02, 0x05]];
     let mut k = 0u64;
@@ -353,7 +356,7 @@ fn reconfiguration(ctx: &mut Ctx) {
 pub fn run(ctx: &mut Ctx) {
     alloc::REFUSE_ABOVE.store(256 << 20, std::sync::atomic::Ordering::Relaxed);
     let quick = ctx.quick();
-    ctx.meta("rule", "cases: header-only streams: an element of every type (U, I, F, S, B, master, global Void, unknown id) at root, inside a small known-size master, inside a known-size master with room, inside an unknown-size master, declaring S in {0,1,M-1,M,M+1,2M,2^20,2^30,2^40,2^56-2} in every VINT width that can hold it, payload absent / 3 bytes present / followed by a 200 KB tail, x limit M in {5,16,1000,2^20,default} x capacity {16,4096,default} x 8 tolerance subsets; a counting global allocator measures peak heap growth around the whole iteration. Oracle: S > M => a CorruptedFileData error (the size error unless an earlier-ordered check fires) with nothing emitted for the element, peak growth <= growth of the same stream with S:=0 plus 4 KiB (independent of S), bytes pulled from the source <= buffer capacity + header; S <= M with the payload missing => growth <= 8*max(S,capacity)+64 KiB; never a panic. Long streams of 10-30 thousand elements of varying small sizes: the largest slice ever offered to read() <= 4*max(capacity, largest payload). Call histories over a source that delivers its data in two stages with a stall (Ok(0) or a read error) in between: stage 1 = nothing / an element / an open master, then junk; next() until the error, try_recover() (which fails at the end of the available data, or succeeds), resume, stage 2 = 0 or 2 junk bytes and an element declaring S in {1001, 2^26, 2^40} > M: peak growth <= 8*max(M,capacity)+64 KiB over the whole history, the element is never emitted. Reconfiguration: a known-size (roomy) or unknown-size master opened under the default / no / a 1 GiB limit, then set_max_allowable_tag_size(Some(M)) between two next() calls, then a child declaring S in {M+1, 2^26}: rejected with a corruption error, never emitted, growth bounded by the NEW limit. A single allocation request above 256 MiB aborts the worker and is reported. Non-trivial: S > capacity.");
+    ctx.meta("rule", "cases: header-only streams: an element of every type (U, I, F, S, B, master, global Void, unknown id) at root, inside a small known-size master, inside a known-size master with room, inside an unknown-size master, declaring S in {0,1,M-1,M,M+1,2M,2^20,2^30,2^40,2^56-2} in every VINT width that can hold it, payload absent / 3 bytes present / followed by a 200 KB tail, x limit M in {5,16,1000,2^20,default} x capacity {16,4096,default} x 8 tolerance subsets; a counting global allocator measures peak heap growth around the whole iteration. Oracle: S > M => a CorruptedFileData error (the size error unless an earlier-ordered check fires) with nothing emitted for the element, peak growth <= growth of the same stream with S:=0 plus 4 KiB (independent of S), bytes pulled from the source <= buffer capacity + header; S <= M with the payload missing => growth <= 8*max(S,capacity)+64 KiB; never a panic. Long streams of 10-30 thousand elements of varying small sizes: the largest slice ever offered to read() <= 4*max(capacity, largest payload). Call histories over a source that delivers its data in two stages with a stall (Ok(0) or a read error) in between: stage 1 = nothing / an element / an open master / masters whose declared size is too small for their content, then junk; next() until the error, try_recover() (which fails at the end of the available data, or succeeds), resume, stage 2 = 0 or 2 junk bytes and an element declaring S in {1001, 2^26, 2^40} > M: peak growth <= 8*max(M,capacity)+64 KiB over the whole history, the element is never emitted. Reconfiguration: a known-size (roomy) or unknown-size master opened under the default / no / a 1 GiB limit, then set_max_allowable_tag_size(Some(M)) between two next() calls, then a child declaring S in {M+1, 2^26}: rejected with a corruption error, never emitted, growth bounded by the NEW limit. A single allocation request above 256 MiB aborts the worker and is reported. Non-trivial: S > capacity.");
     ctx.meta("bounds", "sizes, widths, limits, capacities and contexts as listed; within-limit sizes above 2^20 are not executed (they would really allocate)");
     ctx.meta("assumptions", "no buffered masters (the statement excludes them) || allocator accounting counts requested bytes, not allocator overhead");
     for c in ["over_limit_cases", "within_limit_payload_missing", "over_limit_with_tail", "long_streams", "histories_with_recovery_and_stalls", "histories_with_a_failed_recovery_before_the_oversized_element", "histories_ending_in_the_size_error", "size_error_after_a_failed_recovery", "limit_lowered_between_calls"] {
